@@ -74,6 +74,8 @@ def run(ctx):
     from . import c12
     for sc_ in ctx.prog.subclasses('StreamInterface'):
         c12.r121_private_generator(ctx, sc_)
+    from ..statrules import memo_soundness
+    memo_soundness(ctx, 'R14.9', ['distributions', 'utils'])
     from ..statrules import shared_class_state
     shared_class_state(ctx, 'R14.8', sorted(c for c, ci in ctx.prog.classes.items() if ci.module.name == 'distributions'),
                        'what one distribution instance caches (a spare gaussian, a helper distribution) is consumed by every other instance: draws no longer depend '
